@@ -11,6 +11,10 @@
 (*    st    [k, of]: how Retry.__call__ finished and which invocation's     *)
 (*          product (compared with ==) it delivered (-1: none of them)      *)
 (*    t     finishing time, same: the delivered object IS that product      *)
+(*    pu    the caller's retry parameters are unchanged by the call (the    *)
+(*          parameter object may be shared with earlier invocations of the  *)
+(*          same task on the same Retry instance, as in the load generator; *)
+(*          c is always what the task configured)                           *)
 (*  L1: the clauses of property C16 (Retry!Failing) on the recorded run     *)
 (*  L2: the run is the behaviour of the transcription for these outcomes    *)
 (*                                                                         *)
@@ -37,7 +41,7 @@ WellFormed(it) == /\ \A j \in 1..Len(it.calls) : it.calls[j].o \in AllOutcomes
 
 Check(it) ==
     IF it.kind = "run" THEN
-        LET l1  == IF WellFormed(it) THEN Failing(it.c, it.calls, it.st, it.t) ELSE {"Malformed"}
+        LET l1  == IF WellFormed(it) THEN Failing(it.c, it.calls, it.st, it.t, it.pu) ELSE {"Malformed"}
             exp == Expected(it.c, it.calls)
             l2  == /\ exp.calls = it.calls
                    /\ exp.status = it.st
